@@ -43,7 +43,7 @@ pub fn meta(tier: Tier) -> CheckMeta {
             "reader tasks never wait for each other while holding an engine (harness-made deadlocks excluded)".into(),
             "progress is decided by the supervisor's quiescence watchdog".into(),
         ],
-        parts: vec![PartSpec { name: "native", nshards: 16, budget_s: tier.pick(300, 2400), env: vec![], program: None }],
+        parts: vec![PartSpec { name: "native", nshards: 16, budget_s: tier.pick(300, 2400), env: vec![], program: None, prepare: None, sanitizer: None }],
         must_be_nonzero: vec![
             ("hook_hits_sync_sites", "sync.rs yield sites never reached"),
             ("readers_overlapping_session_call", "no reader ever overlapped a session call"),
@@ -384,7 +384,7 @@ pub fn worker(ctx: &WorkerCtx) -> Report {
     hooks::install();
     let mut rep = Report::default();
     let base = Rng::new(ctx.seed).derive(400 + ctx.shard as u64);
-    let n: u64 = ctx.tier.pick(40, 1500);
+    let n: u64 = ctx.pick(800, 20_000);
     let mut seen = std::collections::HashSet::new();
     for i in 0..n {
         let mut r = base.derive(i);
@@ -392,7 +392,7 @@ pub fn worker(ctx: &WorkerCtx) -> Report {
         let rc = RoundCfg {
             workers,
             readers: 1 + r.usize_below(if workers == 0 { 4 } else { 8 }),
-            sessions: 5 + r.below(ctx.tier.pick(25, 60)),
+            sessions: 5 + r.below(ctx.pick(25, 60)),
             inputs: 2 + r.below(4) as u32,
             starve: r.chance(1, 3),
             yield_num: *r.pick(&[0u64, 1, 2, 4]),
